@@ -472,6 +472,9 @@ func c08(r *Report) {
 	r.Guard("C08.R8", "frames queued behind flow control are still delivered, in frames the receiver accepts: every window credit is applied and wakes the queue; payload sizes respect the receiver's maximum frame size (same obligations as C09.R4/R5)", func() {
 		flowWakeRules(r)
 		frameSizeRules(r)
+		if emit := r.Use("h2", "outputBuffer.emitEligibleFrames"); emit != nil {
+			windowFitRules(r, emit)
+		}
 	})
 
 	r.Guard("C08.R7", "the connection preface is read completely before it is compared", func() {
